@@ -189,6 +189,41 @@ def located_damage(rng, files):
     return None
 
 
+def raw_idents(rng):
+    """raw identifiers (`r#type`) wherever pyxis turns a name into an identifier with format_ident!: fields, enum
+    variants, functions, parameters (a raw TYPE name is the listed finding F6f and is not generated here)"""
+    kws = ["type", "struct", "match", "in", "fn", "loop", "move", "ref", "use", "mod", "impl", "enum"]
+    k = lambda: "r#" + rng.choice(kws)
+    names = []
+    while len(names) < 6:
+        n_ = k()
+        if n_ not in names:
+            names.append(n_)
+    f1, f2, v1, v2, m1, a1 = names
+    text = "pub type Holder {\n    pub %s: u32,\n    %s: *const u8,\n}\n" % (f1, f2)
+    text += "pub enum Kind: u8 {\n    %s = 1,\n    %s,\n}\n" % (v1, v2)
+    if rng.random() < 0.7:
+        text += "impl Holder {\n    #[address(0x%x)]\n    pub fn %s(&self, %s: u32) -> u32;\n}\n" % (rng.randint(16, 2**20), m1, a1)
+    if rng.random() < 0.5:
+        text += "pub type WithTable {\n    vftable {\n        pub fn %s(&self, %s: *const Holder);\n    },\n}\n" % (m1, a1)
+    return text
+
+
+def clash_inputs(rng):
+    """inherited functions whose clash-renamed name <field>_<name> is taken as well (finding F24 emits two functions of one
+    name): whatever pyxis does with them, it has to terminate"""
+    f = rng.choice(["update", "reset", "f"])
+    b = rng.choice(["listener", "b", "base2"])
+    text = "pub type A { pub x: u32 }\nimpl A { #[address(0x10)] pub fn %s(&self); }\n" % f
+    text += "pub type B { pub y: u32 }\nimpl B { #[address(0x20)] pub fn %s(&self);%s }\n" % (
+        f, " #[address(0x30)] pub fn %s_%s(&self);" % (b, f) if rng.random() < 0.5 else "")
+    text += "pub type Mid { #[base] pub a: A, #[base] pub %s: B }\n" % b
+    text += "pub type D { #[base] pub x: Mid, #[base] pub %s: B }\n" % b
+    if rng.random() < 0.5:
+        text += "pub type E { #[base] pub d: D, #[base] pub %s: B }\n" % b
+    return text
+
+
 def api_cases(rng, n):
     """module sets given as ASTs with unusual pointer sizes / repeated modules / odd identifiers"""
     out = []
@@ -225,7 +260,11 @@ def runner(pid, prop, tier, seed, scratch, replay=None):
         for i in range(n):
             k = i % 10
             ptr = rng.choice([4, 8])
-            if k < 2:
+            if i % 40 == 13:
+                files, kind = {"a.pyxis": raw_idents(rng)}, "raw_identifiers"
+            elif i % 40 == 33:
+                files, kind = {"a.pyxis": clash_inputs(rng)}, "rename_clashes"
+            elif k < 2:
                 files, kind = {"a.pyxis": token_soup(rng)}, "token_soup"
             elif k < 5:
                 src = rng.choice(valid)
